@@ -233,7 +233,12 @@ LocsR(path, n, pre, oks, root) ==
            rest == Tail(path)
        IN CASE f.f = "root" -> LocsR(rest, root, <<>>, <<>>, root)
             [] f.f \in {"at", "bracket"} -> LocsR(rest, n, pre, oks, root)
-            [] f.f = "desc" -> FlatMap(LAMBDA d : LocsR(rest, d.n, d.loc, oks \o Free(Len(d.loc) - Len(pre)), root), DescNodes(n, pre))
+            \* steps taken by a descent: an array index is order-obligated (elements of one array keep their index order in every
+            \* result, also under a trailing descent), a member key is free; how different parents interleave is not prescribed
+            [] f.f = "desc" -> FlatMap(LAMBDA d : LocsR(rest, d.n, d.loc,
+                                                        oks \o [j \in 1..(Len(d.loc) - Len(pre)) |->
+                                                                  LET st == d.loc[Len(pre) + j] IN IF IsK(st) THEN [o |-> FALSE, r |-> 0] ELSE [o |-> TRUE, r |-> st.i]],
+                                                        root), DescNodes(n, pre))
             [] OTHER -> FlatMap(LAMBDA k : LocsR(rest, k.n, Append(pre, k.s), Append(oks, [o |-> k.o, r |-> k.r]), root), Kids(f, n))
 \* copy what a script reads from the root (`$.rk`) into its filter fragment
 \* the values of `$.rk<rf>` / `$..rk` on the root
@@ -311,10 +316,12 @@ JudgeGet(path, root, got, distinct) ==
   LET E == Locs(path, root) IN
   IF EndsDesc(path) THEN
     \* trailing bare descent: every nested node is required, each start node may or may not be reported
-    \* (allowance), no order obligation (the last fragment is the descent itself)
+    \* (allowance); order: the elements of one array appear in index order relative to each other (the statement: "results that come
+    \* from array traversal appear in array order"), object members are free, interleaving across different parents is not prescribed
     LET req == Vals(DropStarts(path, root))
         all == Vals(E) IN
-    IF SubBagSeq(req, got) /\ SubBagSeq(got, all) THEN "ok"
+    IF SubBagSeq(req, got) /\ SubBagSeq(got, all)
+    THEN (IF distinct /\ Len(Dedup(E)) = Len(E) /\ ~OrderOK(E, got, TRUE) THEN "order" ELSE "ok")   \* siblings of one array in index order
     ELSE IF SubBagSeq(req, got) THEN "extra" ELSE IF SubBagSeq(got, all) THEN "fewer" ELSE "sel"
   ELSE
     LET j1 == JudgeAgainst(E, got, path, distinct) IN
